@@ -102,6 +102,10 @@ inductive Transport
   | sourceSplit (id : Nat) (sizes : List Nat)
   /-- GoldSrc split packets -/
   | goldSplit (id : Nat) (sizes : List Nat)
+  /-- Source split packets carrying the bzip2-compressed reply: `z` is the compressed stream that is cut into chunks,
+  `crc` the CRC-32 of the uncompressed reply (both computed by the server; bzip2 and CRC-32 are not part of the SPEC,
+  the theorems relate them to the client's decoder by a law); bit 31 of `id` is set -/
+  | sourceSplitBz (id : Nat) (sizes : List Nat) (z : Bytes) (crc : Nat)
   deriving Repr
 
 def sourceFragment (withSize : Bool) (id total number : Nat) (chunk : Bytes) : Bytes :=
@@ -124,6 +128,11 @@ def datagrams (withSize : Bool) (t : Transport) (packet : Bytes) : List Bytes :=
   | .goldSplit id sizes =>
     let cs := chunks sizes packet
     (enumFrom 0 cs).map fun (i, c) => goldFragment id cs.length i c
+  | .sourceSplitBz id sizes z crc =>
+    -- fragment 0 announces the uncompressed size and the checksum before its chunk
+    let cs := chunks sizes z
+    (enumFrom 0 cs).map fun (i, c) =>
+      sourceFragment withSize id cs.length i ((if i == 0 then le 4 packet.length ++ le 4 crc else []) ++ c)
 
 /-- how one request is answered: challenge rounds, then the reply over some transport -/
 structure Exchange where
@@ -161,6 +170,30 @@ def script (cfg : Config) (st : State) : List Bytes :=
    else exchangeDatagrams cfg.engine st.info.protocolVersion cfg.players (reply 0x44 (encPlayers st.players))) ++
   (if cfg.gather.rules == .skip then []
    else exchangeDatagrams cfg.engine st.info.protocolVersion cfg.rules (reply 0x45 (encRules st.rules)))
+
+/-! the same exchange when the datagrams of a split reply arrive in another order (UDP does not keep order) -/
+
+/-- the datagrams carrying the final reply to each of the three requests, in the order the server emits them -/
+def infoDatagrams (cfg : Config) (st : State) : List Bytes :=
+  datagrams (withSize cfg.engine 0) cfg.info.transport (infoPacket cfg st)
+def playersDatagrams (cfg : Config) (st : State) : List Bytes :=
+  datagrams (withSize cfg.engine st.info.protocolVersion) cfg.players.transport (reply 0x44 (encPlayers st.players))
+def rulesDatagrams (cfg : Config) (st : State) : List Bytes :=
+  datagrams (withSize cfg.engine st.info.protocolVersion) cfg.rules.transport (reply 0x45 (encRules st.rules))
+
+/-- one exchange with the datagrams of its final reply delivered as `arrival` -/
+def exchangeAs (x : Exchange) (arrival : List Bytes) : List Bytes :=
+  x.challenges.map challengeReply ++ arrival
+
+/-- what the client receives when the final replies are delivered as `ai`, `ap`, `ar`
+(`script cfg st = scriptAs cfg (infoDatagrams cfg st) (playersDatagrams cfg st) (rulesDatagrams cfg st)`) -/
+def scriptAs (cfg : Config) (ai ap ar : List Bytes) : List Bytes :=
+  exchangeAs cfg.info ai ++
+  (if cfg.gather.players == .skip then [] else exchangeAs cfg.players ap) ++
+  (if cfg.gather.rules == .skip then [] else exchangeAs cfg.rules ar)
+
+theorem script_eq_scriptAs (cfg : Config) (st : State) :
+    script cfg st = scriptAs cfg (infoDatagrams cfg st) (playersDatagrams cfg st) (rulesDatagrams cfg st) := rfl
 
 /-- the rules a user is entitled to see (Risk of Rain 2 quirk: rule `Test` is dropped) -/
 def expectedRules (engine : Engine) (rs : Rules) : Rules :=
@@ -247,5 +280,47 @@ def wf (cfg : Config) (st : State) : Bool :=
    | e => wfSourceInfo e st.info) &&
   st.players.length < 256 && st.players.all (wfPlayer (cfg.engine == Engine.new 2400)) &&
   st.rules.length < 65536 && st.rules.all (fun p => okStr p.1 && okStr p.2) && distinctKeys st.rules
+
+/-- a transport as the specification prescribes it for this engine: Source engines split in the Source layout
+(uncompressed: bit 31 of the id clear, or bzip2-compressed: bit 31 set; the fragment count travels in one byte),
+GoldSrc engines in the GoldSrc layout (count and number share one byte: at most 15 fragments).  Any cut points. -/
+def wfTransport (engine : Engine) : Transport → Bool
+  | .single => true
+  | .sourceSplit id sizes =>
+    (match engine with | .source _ => true | .goldSrc _ => false) && id < 2 ^ 31 && sizes.length + 1 < 256
+  | .goldSplit id sizes =>
+    (match engine with | .goldSrc _ => true | .source _ => false) && id < 2 ^ 32 && sizes.length + 1 < 16
+  | .sourceSplitBz id sizes _ crc =>
+    (match engine with | .source _ => true | .goldSrc _ => false) && 2 ^ 31 ≤ id && id < 2 ^ 32 &&
+      sizes.length + 1 < 256 && crc < 2 ^ 32
+
+def Transport.compressed : Transport → Bool
+  | .sourceSplitBz _ _ _ _ => true
+  | _ => false
+
+/-- a compressed transport carries what the server's compressor and checksum give for the reply; the client
+refuses to decompress more than 4 MiB (`MAX_DECOMPRESSED_SIZE`), so the reply is within that -/
+def Transport.carries (compress : Bytes → Bytes) (crc32 : Bytes → Nat) (packet : Bytes) : Transport → Prop
+  | .sourceSplitBz _ _ z crc => z = compress packet ∧ crc = crc32 packet ∧ packet.length ≤ maxDecompressedSize
+  | _ => True
+
+/-- the transports of the sections that are asked for (any number of challenge rounds, any challenge bytes) -/
+def wfExchanges (cfg : Config) : Bool :=
+  wfTransport cfg.engine cfg.info.transport &&
+  (cfg.gather.players == .skip || wfTransport cfg.engine cfg.players.transport) &&
+  (cfg.gather.rules == .skip || wfTransport cfg.engine cfg.rules.transport)
+
+/-- no reply is compressed -/
+def uncompressed (cfg : Config) : Bool :=
+  !cfg.info.transport.compressed && !cfg.players.transport.compressed && !cfg.rules.transport.compressed
+
+/-- every datagram fits the client's receive buffer (6144 bytes; the specification's datagrams are at most 1400) -/
+def fits (ds : List Bytes) : Bool := ds.all (fun d => d.length ≤ PACKET_SIZE)
+
+/-- every compressed reply of the exchange was produced by `compress` / `crc32` -/
+def carries (compress : Bytes → Bytes) (crc32 : Bytes → Nat) (cfg : Config) (st : State) : Prop :=
+  cfg.info.transport.carries compress crc32 (infoPacket cfg st) ∧
+  cfg.players.transport.carries compress crc32 (reply 0x44 (encPlayers st.players)) ∧
+  cfg.rules.transport.carries compress crc32 (reply 0x45 (encRules st.rules))
 
 end Gd.Valve.Spec
